@@ -221,11 +221,17 @@ class P:
             inits = self.for_init()
             c = self.expr()
             self.eat(";")
-            step = self.expr()
+            steps = [("expr", self.expr())]
+            while self.peek() == ",":
+                self.eat(",")
+                steps.append(("expr", self.expr()))
             self.eat(")")
             body = self.stmt()
-            return ("block", inits + [("while", c, body, [("expr", step)])])
+            return ("block", inits + [("while", c, body, steps)])
         if tok == "return":
+            if self.text_upto_semicolon() == "return*this":
+                self.skip_semicolon()
+                return ("return", None)          # `C& operator=`: the object itself
             self.eat("return")
             if self.peek() == ";":
                 self.eat(";")
@@ -300,10 +306,13 @@ class P:
     # -- expressions: assignment < equality < relational(<) < multiplicative(%) < unary < postfix
     def expr(self):
         lhs = self.equality()
+        while self.peek() == "||":
+            self.eat()
+            lhs = ("or", lhs, self.equality())
         if self.peek() == "=":
             self.eat("=")
             return ("assign", lhs, self.expr())
-        if self.peek() in ("&&", "||", "?", "+", "-", "*", "/", "<=", ">=", ">", "|", "^", "&"):
+        if self.peek() in ("&&", "?", "+", "-", "*", "/", "<=", ">=", ">", "|", "^", "&"):
             raise Refuse(f"{self.fn}: operator `{self.peek()}` is outside the translated subset")
         return lhs
 
@@ -386,7 +395,8 @@ class P:
 
 # ---- translation ---------------------------------------------------------------------------------------------------------
 # Lean types: opt = Option Nat, item = Nat, nxt = Nxt, cell = CellRef, nat = Nat
-LEAN_TY = {"opt": "Option Nat", "item": "Nat", "nxt": "Nxt", "cell": "CellRef", "nat": "Nat"}
+LEAN_TY = {"opt": "Option Nat", "item": "Nat", "nxt": "Nxt", "cell": "CellRef", "nat": "Nat", "bool": "Bool",
+           "opt@B": "Option Nat", "item@B": "Nat", "nxt@B": "Nxt"}      # @B: a pointer into the items of `other`
 FIELD_TY = {"key": "nat", "value": "nat", "cell": "cell", "nextCell": "opt", "prev": "opt", "next": "nxt"}
 SETTER = {"cell": "setCell", "nextCell": "setNextCell", "prev": "setPrev", "next": "setNext", "value": "setValueAt"}
 MEMBERS = {"freeItem": ("freeItem", "opt"), "_size": ("size", "nat"), "capacity": ("cap", "nat"), "blocks": ("blocks", "nat")}
@@ -414,6 +424,8 @@ class Tr:
     def coerce(self, term, ty, want):
         if ty == want:
             return term
+        if ty.endswith("@B") and want.endswith("@B"):
+            return self.coerce(term, ty[:-2], want[:-2])
         if ty == "item" and want == "opt":
             return f"(some {term})"
         if ty == "item" and want == "nxt":
@@ -427,6 +439,12 @@ class Tr:
     def ret_ty(self):
         r = self.spec["ret"]
         return "PTable" if r is None else f"(PTable × {LEAN_TY[r]})"
+
+    def osig(self):
+        return " (o : PTable)" if self.spec.get("other") else ""
+
+    def oarg(self):
+        return "o " if self.spec.get("other") else ""
 
     # --- lvalues: ('local', name) | ('member', leanfield, ty) | ('field', addr-expr, fieldname) | ('cellof', expr) | ('heads', idx)
     def lvalue(self, e, env):
@@ -474,6 +492,14 @@ class Tr:
             if t is None:
                 self.refuse(f"`{e[1]}` is read before it is assigned")
             return k(t, ty, env, ind)
+        if e == ("dot", ("dot", ("id", "other"), "_begin"), "item") and self.spec.get("other"):
+            return k("o.begin", "nxt@B", env, ind)
+        if e == ("addr", ("dot", ("id", "other"), "endItem")) and self.spec.get("other"):
+            return k("(Nxt.stl o.self)", "nxt@B", env, ind)
+        if e == ("dot", ("id", "other"), "_size") and self.spec.get("other"):
+            return k("o.size", "nat", env, ind)
+        if kind == "id" and e[1] in ("true", "false") and e[1] not in env:
+            return k(e[1], "bool", env, ind)
         if kind == "id" and e[1] == "_end":
             return k("(Nxt.stl t.self)", "nxt", env, ind)
         if kind == "id" and e[1] == "_begin":
@@ -528,18 +554,21 @@ class Tr:
             if lv[0] == "field":
                 f = lv[2]
 
+                def fty(heap):
+                    return FIELD_TY[f] + ("@B" if heap == "o" and FIELD_TY[f] in ("opt", "nxt") else "")
+
                 def after(t, ty, env2, ind2):
                     if ty == "item":
                         return kc(f"(t.items {t}).{f}", FIELD_TY[f], env2, ind2)
                     if ty == "nxt" and f == "prev":
                         return kc(f"(t.prevOf {t})", "opt", env2, ind2)
-                    return self.deref(lv[1], env2, ind2, lambda a, env3, ind3: kc(f"(t.items {a}).{f}", FIELD_TY[f], env3, ind3))
+                    return self.deref2(lv[1], env2, ind2, lambda a, hp, env3, ind3: kc(f"({hp}.items {a}).{f}", fty(hp), env3, ind3))
                 # `x->prev` of an item-or-sentinel pointer reads `endItem.prev` for the sentinel
                 if f == "prev":
                     return self.ev(lv[1], env, ind, lambda t, ty, env2, ind2:
                                    after(t, ty, env2, ind2) if ty in ("item", "nxt") else
-                                   self.deref(lv[1], env2, ind2, lambda a, env3, ind3: kc(f"(t.items {a}).{f}", FIELD_TY[f], env3, ind3)))
-                return self.deref(lv[1], env, ind, lambda a, env2, ind2: kc(f"(t.items {a}).{f}", FIELD_TY[f], env2, ind2))
+                                   self.deref2(lv[1], env2, ind2, lambda a, hp, env3, ind3: kc(f"({hp}.items {a}).{f}", fty(hp), env3, ind3)))
+                return self.deref2(lv[1], env, ind, lambda a, hp, env2, ind2: kc(f"({hp}.items {a}).{f}", fty(hp), env2, ind2))
         if kind == "assign":
             def after_rhs(t, ty, env2, ind2):
                 if ty == "null":
@@ -608,18 +637,28 @@ class Tr:
         return go(0, env, ind)
 
     def deref(self, e, env, ind, k):
-        """k(address term : Nat, env, ind); a null pointer / a sentinel is a fault"""
+        """k(address term : Nat, env, ind) for an item of this object (stores, calls); a null pointer / a sentinel is a fault"""
+        def k2(a, hp, env2, ind2):
+            if hp != "t":
+                self.refuse("an item of `other` is used where an item of this object is needed")
+            return k(a, env2, ind2)
+        return self.deref2(e, env, ind, k2)
+
+    def deref2(self, e, env, ind, k):
+        """k(address term : Nat, heap 't' | 'o', env, ind); a null pointer / a sentinel is a fault"""
         def after(t, ty, env2, ind2):
+            hp, tag = ("o", "@B") if ty.endswith("@B") else ("t", "")
+            ty = ty[:-2] if tag else ty
             if ty == "item":
-                return k(t, env2, ind2)
+                return k(t, hp, env2, ind2)
             a = self.fresh("a")
-            env3 = self.known(env2, t, a)
+            env3 = self.known(env2, t, a) if not tag else dict(env2)
             if e[0] == "id" and e[1] in env3:
-                env3[e[1]] = (a, "item")
+                env3[e[1]] = (a, "item" + tag)
             if ty == "opt":
-                return ([f"{ind2}match {t} with", f"{ind2}| none => none", f"{ind2}| some {a} =>"] + k(a, env3, ind2 + "  "))
+                return ([f"{ind2}match {t} with", f"{ind2}| none => none", f"{ind2}| some {a} =>"] + k(a, hp, env3, ind2 + "  "))
             if ty == "nxt":
-                return ([f"{ind2}match {t} with", f"{ind2}| Nxt.stl _ => none", f"{ind2}| Nxt.item {a} =>"] + k(a, env3, ind2 + "  "))
+                return ([f"{ind2}match {t} with", f"{ind2}| Nxt.stl _ => none", f"{ind2}| Nxt.item {a} =>"] + k(a, hp, env3, ind2 + "  "))
             self.refuse(f"`->` applied to a value of type {ty}")
         return self.ev(e, env, ind, after)
 
@@ -628,7 +667,8 @@ class Tr:
         lv = self.lvalue(lhs, env)
         if lv[0] == "local":
             old = env[lv[1]][1]
-            if old not in (None, ty) and not ({old, ty} <= {"opt", "item", "null"}) and not ({old, ty} <= {"nxt", "item"}):
+            if old not in (None, ty) and not ({old, ty} <= {"opt", "item", "null"}) and not ({old, ty} <= {"nxt", "item"}) \
+                    and not ({old, ty} <= {"nxt@B", "item@B"}) and not ({old, ty} <= {"opt@B", "item@B"}):
                 self.refuse(f"`{lv[1]}` changes its type from {old} to {ty}")
             if ty == "null":
                 term, ty = "none", "opt"
@@ -669,12 +709,22 @@ class Tr:
             env_t = dict(env)
             env_t["$data"] = True
             return ([f"{ind}if t.allocated then"] + kthen(env_t, ind + "  ") + [f"{ind}else"] + kelse(env, ind + "  "))
+        if c[0] == "or":
+            # `a || b`: b is evaluated only when a is false
+            return self.cond(c[1], env, ind, kthen, lambda env2, ind2: self.cond(c[2], env2, ind2, kthen, kelse))
+        if c[0] == "bin" and c[1] in ("==", "!=") and {c[2], c[3]} == {("id", "this"), ("addr", ("id", "other"))}:
+            # `this == &other`: `o` is ANOTHER object (the call with the object itself is the model's `assignSelf`)
+            if not self.spec.get("other"):
+                self.refuse("`this == &other` without a parameter `other`")
+            return (kelse if c[1] == "==" else kthen)(env, ind)
         if c[0] == "bin" and c[1] in ("==", "!="):
             def after_a(ta, tya, env2, ind2):
                 def after_b(tb, tyb, env3, ind3):
                     tys = {tya, tyb}
                     if tys <= {"nat"}:
                         a, b = ta, tb
+                    elif tys <= {"nxt@B", "item@B"}:
+                        a, b = self.coerce(ta, tya, "nxt@B"), self.coerce(tb, tyb, "nxt@B")
                     elif tys <= {"nxt", "item"}:
                         a, b = self.coerce(ta, tya, "nxt"), self.coerce(tb, tyb, "nxt")
                     else:
@@ -739,7 +789,8 @@ class Tr:
                 return go(env2, ind)
 
             def after(t, ety, env2, ind2):
-                want = {"Item*": ("opt", "item", "nxt", "null"), "usize": ("nat",), "Item**": ("cell",), "Iterator": ("nxt", "item")}[ty]
+                want = {"Item*": ("opt", "item", "nxt", "null", "opt@B", "item@B", "nxt@B"), "usize": ("nat",), "Item**": ("cell",),
+                        "Iterator": ("nxt", "item")}[ty]
                 if ety not in want:
                     self.refuse(f"`{ty} {name}` initialised with a value of type {ety}")
                 if ety == "null":
@@ -859,12 +910,12 @@ class Tr:
         sig = "".join(f" ({p} : {LEAN_TY[ty]})" for p, ty in self.spec["params"])
         sig += "".join(f" (v_{x} : {LEAN_TY[ltys[x]]})" for x in passed)
         body = self.run(rest, kenv, "  ")
-        self.aux.append(f"def {kname} (h : Nat → Nat) (t : PTable){sig} : Option {self.ret_ty()} :=\n" + "\n".join(body) + "\n")
+        self.aux.append(f"def {kname} (h : Nat → Nat) (t : PTable){self.osig()}{sig} : Option {self.ret_ty()} :=\n" + "\n".join(body) + "\n")
         out = []
         for l in lines:
             if isinstance(l, list) and l[0] == "JOIN" and any(l is m for m in marks):
                 args = [self.coerce(l[1][x][0], l[1][x][1], ltys[x]) for x in passed]
-                out.append(f"{l[2]}{kname} h t " + " ".join(params + args))
+                out.append(f"{l[2]}{kname} h t {self.oarg()}" + " ".join(params + args))
             else:
                 out.append(l)
         return out
@@ -908,7 +959,7 @@ class Tr:
                 args.append(self.coerce(env2[x][0], env2[x][1], ltys[x]))
             if bool(env2.get("$data")) != bool(lenv.get("$data")):
                 self.refuse("`data` is allocated inside a loop")
-            return [f"{ind2}{lname} h fuel t " + " ".join(params + args)]
+            return [f"{ind2}{lname} h fuel t {self.oarg()}" + " ".join(params + args)]
 
         def kthen(env2, ind2):
             return ([f"{ind2}match fuel with", f"{ind2}| 0 => none", f"{ind2}| fuel + 1 =>"] +
@@ -919,10 +970,20 @@ class Tr:
         self.in_loop = getattr(self, "in_loop", 0) + 1
         lines = self.cond(c, lenv, "  ", kthen, kelse)
         self.in_loop -= 1
-        self.aux.append(f"def {lname} (h : Nat → Nat) (fuel : Nat) (t : PTable){sig} : Option {self.ret_ty()} :=\n" + "\n".join(lines) + "\n")
+        self.aux.append(f"def {lname} (h : Nat → Nat) (fuel : Nat) (t : PTable){self.osig()}{sig} : Option {self.ret_ty()} :=\n" + "\n".join(lines) + "\n")
         args = [self.coerce(env[x][0], env[x][1], ltys[x]) for x in locs]
         # the fuel of a loop is the size of the table whose chain / list it walks (the model's bound; `ptr_structure`: it suffices)
-        return [f"{ind}{lname} h t.size t " + " ".join(params + args)]
+        ids = set()
+
+        def collect(x):
+            if isinstance(x, tuple):
+                if x[0] == "id":
+                    ids.add(x[1])
+                for y in x[1:]:
+                    collect(y)
+        collect(c)
+        walks_other = any(x in ltys and ltys[x].endswith("@B") for x in ids)
+        return [f"{ind}{lname} h {'o' if walks_other else 't'}.size t {self.oarg()}" + " ".join(params + args)]
 
 
 # ---- swap: two objects, two heaps ------------------------------------------------------------------------------------------
@@ -1099,19 +1160,31 @@ def specs_for(cls):
         "removeFront": {"lean": "removeFront", "rx": r"Iterator\s+removeFront\s*\(\s*\)", "params": [], "ret": "nxt"},
         "removeBack": {"lean": "removeBack", "rx": r"Iterator\s+removeBack\s*\(\s*\)", "params": [], "ret": "nxt"},
     }
+    if cls != "PoolMap":
+        s["assign"] = {"lean": "assign", "rx": cls + r"\s*&\s*operator\s*=\s*\(\s*const\s+" + cls + r"\s*&\s*other\s*\)",
+                       "params": [], "ret": None, "other": True}
+        s["equal"] = {"lean": "equal", "rx": r"bool\s+operator\s*==\s*\(\s*const\s+" + cls + r"\s*&\s*other\s*\)",
+                      "params": [], "ret": "bool", "other": True}
+    if cls == "HashSet":
+        s["appendAll"] = {"lean": "appendAll", "rx": r"void\s+append\s*\(\s*const\s+HashSet\s*&\s*other\s*\)",
+                          "params": [], "ret": None, "other": True}
+        s["removeAll"] = {"lean": "removeAll", "rx": r"void\s+remove\s*\(\s*const\s+HashSet\s*&\s*other\s*\)",
+                          "params": [], "ret": None, "other": True}
     if cls == "PoolMap":
         s["removeValue"] = {"lean": "removeValue", "rx": r"void\s+remove\s*\(\s*const\s+V\s*&\s*value\s*\)",
                             "params": [("value", "item")], "ret": None, "value_item": True}
     return s
 
 
-ORDER = ["find", "removeValue", "removeIt", "removeKey", "removeFront", "removeBack", "insert", "clear"]
+ORDER = ["find", "removeValue", "removeIt", "removeKey", "removeFront", "removeBack", "insert", "clear", "assign", "appendAll",
+         "removeAll", "equal"]
 
 
 class Gen:
     def __init__(self, repo):
         self.repo = Path(repo)
         self.specs = {}
+        self.append_is_insert_at_end = {}
 
     def resolve(self, tr, name, args, env):
         """overload resolution of a call to a sibling member: (lean name, parameter types)"""
@@ -1120,13 +1193,19 @@ class Gen:
             target = "find"
         elif name == "insert":
             target = "insert"
+        elif name == "clear" and not args:
+            target = "clear"
+        elif name == "append" and len(args) == (2 if tr.cls == "HashMap" else 1) and self.append_is_insert_at_end.get(tr.cls):
+            # `append(key[, value])` is `insert(_end, key[, value])` (checked on the text of the wrapper)
+            args.insert(0, ("id", "_end"))
+            target = "insert"
         elif name == "remove" and len(args) == 1:
             a = args[0]
             if a[0] == "arrow" and a[2] == "value" and "removeValue" in specs:
                 # remove(const V&): the item the value lives in
                 args[0] = a[1]
                 target = "removeValue"
-            elif a == ("id", "key"):
+            elif a == ("id", "key") or (a[0] == "arrow" and a[2] == "key"):
                 target = "removeKey"
             else:
                 target = "removeIt"        # an Iterator, or an Item* converted to one
@@ -1143,6 +1222,11 @@ class Gen:
         src = strip_comments((self.repo / header).read_text())
         specs = specs_for(cls)
         self.specs[cls] = specs
+        flat = re.sub(r"\s+", "", src)
+        wrapper = {"HashMap": "V&append(constT&key,constV&value){returninsert(_end,key,value).item->value;}",
+                   "HashSet": "voidappend(constT&key){insert(_end,key);}",
+                   "PoolMap": "V&append(constT&key){returninsert(_end,key).item->value;}"}[cls]
+        self.append_is_insert_at_end[cls] = wrapper in flat
         parts, summary = [], []
         for name in ORDER:
             if name not in specs:
@@ -1159,7 +1243,7 @@ class Gen:
             lines = tr.run(stmts, env, "  ")
             sig = "".join(f" ({pn} : {LEAN_TY[ty]})" for pn, ty in spec["params"])
             parts += tr.aux
-            parts.append(f"def {spec['lean']} (h : Nat → Nat) (t : PTable){sig} : Option {tr.ret_ty()} :=\n" + "\n".join(lines) + "\n")
+            parts.append(f"def {spec['lean']} (h : Nat → Nat) (t : PTable){tr.osig()}{sig} : Option {tr.ret_ty()} :=\n" + "\n".join(lines) + "\n")
             spec["done"] = True
             summary.append(f"{fn}:{len(stmts)}")
         # swap
